@@ -461,9 +461,9 @@ func init() {
 			"inputs are deviations of bounded size from well-formed seeds, not all byte strings"},
 		Bound: func(tier string) string {
 			if tier == "thorough" {
-				return "byte strings of length <= 2; all seeds x all truncations x single deviations; token pairs on the 200 shortest JSON seeds; gob positions x 256 values; seeds include term+termMap together (plain text equal to the first/middle/last/no entry), long and short IRIs mixed with repeats, one identity in all addressing lists, lists of 17/33/65 entries; language-map keys with several subtags, singletons, private use and malformed tags; codec chains (what the library writes for a decoded value is decoded again, JSON and gob, package functions and methods) for seeds and token-level deviations"
+				return "byte strings of length <= 2; all seeds x all truncations x single deviations; token pairs on the 200 shortest JSON seeds; gob positions x 256 values; seeds include term+termMap together (plain text equal to the first/middle/last/no entry), long and short IRIs mixed with repeats, one identity in all addressing lists, lists of 17/33/65 entries; language-map keys with several subtags, singletons, private use and malformed tags; codec chains (what the library writes for a decoded value is decoded again, JSON and gob, package functions and methods) for seeds and token-level deviations; families added after round 5: DESIGN.md 8.11"
 			}
-			return "byte strings of length <= 1; level-0/1(q) seeds x truncations (every byte) x single token deviations over 7 tokens; gob positions x 7 values; seeds include term+termMap together (plain text equal to the first/middle/last/no entry), long and short IRIs mixed with repeats, one identity in all addressing lists, lists of 17/33/65 entries; language-map keys with several subtags, singletons, private use and malformed tags; codec chains (what the library writes for a decoded value is decoded again, JSON and gob, package functions and methods) for seeds and token-level deviations"
+			return "byte strings of length <= 1; level-0/1(q) seeds x truncations (every byte) x single token deviations over 7 tokens; gob positions x 7 values; seeds include term+termMap together (plain text equal to the first/middle/last/no entry), long and short IRIs mixed with repeats, one identity in all addressing lists, lists of 17/33/65 entries; language-map keys with several subtags, singletons, private use and malformed tags; codec chains (what the library writes for a decoded value is decoded again, JSON and gob, package functions and methods) for seeds and token-level deviations; families added after round 5: DESIGN.md 8.11"
 		},
 		Pre:           c04Audit,
 		WorkerVMemKB:  24 << 20, // 24 GiB of address space per worker: far above normal use, far below the machine
